@@ -362,6 +362,10 @@ def curated():
     out.append(D("nest-inner-sequential-3in2", [c2, d2, sq3], nest(cross(["c"], ["c"]), cross(["d", "q"], ["d"], [["Sequential", "q"]])), ["nest", "sequential", "scope-inner"]))
     out.append(D("repeat-inner-sequential-3in2", [d2, sq3], repeat(cross(["d", "q"], ["d"], [["Sequential", "q"]]), [["MinimumTrials", 4]]), ["repeat", "sequential", "scope-inner", "mintrials"]))
     out.append(D("repeat-own-sequential-3in2", [d2, sq3], repeat(cross(["d", "q"], ["d"]), [["MinimumTrials", 4], ["Sequential", "q"]]), ["repeat", "sequential", "scope-outer", "mintrials"]))
+    # a count constraint on a level whose factor applies to NO trial of the block (window wider than the block): the count is 0
+    out.append(D("exactlyk2-window3-never-applies", [c2, window_last("v", "c", A2, 3)], cross(["c", "v"], ["c"], [["ExactlyK", 2, "v", "miss"]]), ["window", "exactlyk", "never-applies"]))
+    out.append(D("exactlyk1-window3-never-applies-repeat", [c2, window_last("v", "c", A2, 3)],
+                 repeat(cross(["c", "v"], ["c"], [["ExactlyK", 1, "v", "hit"]]), [["MinimumTrials", 3]]), ["window", "exactlyk", "never-applies", "repeat", "mintrials"]))
     # --- continuous factors next to the discrete design (C08, C20 only: SC.design_space(continuous=True))
     wdu_ = fac("d", [["x", 2], ["y", 1]])
     for nz in (1, 2):
